@@ -21,6 +21,14 @@ import FV.Props.C18
   `die.floorplanning_rectangles()` do not overlap (`Pairwise NoOverlap`) and that the fixed regions are the fixed
   modules' rectangles; `Dissection` states "the cells are obtained from regions `Rs` by repeated cutting"
   (what `split_refinable_regions` and the refinement operations do, C18 `splitH_tiles` / `split_tiles`).
+
+  SCOPE / NOT PROVED HERE
+  * IEEE rounding: the theorems are exact-arithmetic statements (`pySum = Σ`, the clamp `1 < a < 1 + 1e-6 ↦ 1` of the
+    repaired code never fires because `Σ_r areaOverlap c r ≤ area c`, `NetOK.cover_le`); at `Float` the model is only
+    executed against the implementation (F stream of `harness/props/c03.py`).
+  * The hypotheses `FixedOK`, `Pairwise NoOverlap`, `Inside`, `Σ area = area die` about the cells are conclusions of
+    C01 (die decomposition) and C02/C11/C18 (cutting); they are not re-derived from a die model in this file (the die
+    model belongs to C01); the harness re-checks them on every generated document (`cells_cover`).
 -/
 namespace FV.C03
 open FV FV.Rect FV.InitAlloc
